@@ -3,3 +3,4 @@ pub mod c05;
 pub mod fm;
 pub mod c18;
 pub mod c19;
+pub mod recvfm;
